@@ -61,10 +61,34 @@ def harness_headers():
 _hash_cache = {}
 
 
-def env_hash():
-    if "env" not in _hash_cache:
-        _hash_cache["env"] = sha_files(repo_headers() + harness_headers())
-    return _hash_cache["env"]
+def source_deps(src):
+    """the source file plus every harness header it includes (transitively); repository headers are always all included"""
+    seen, todo = set(), [src]
+    inc = os.path.join(HERE, "harness/include")
+    while todo:
+        f = todo.pop()
+        if f in seen:
+            continue
+        seen.add(f)
+        try:
+            txt = open(f, errors="replace").read()
+        except OSError:
+            continue
+        for m in re.finditer(r'#\s*include\s*"([^"]+)"', txt):
+            cand = os.path.join(inc, m.group(1))
+            if os.path.exists(cand):
+                todo.append(cand)
+    return sorted(seen)
+
+
+def env_hash(src=None):
+    if "repo" not in _hash_cache:
+        _hash_cache["repo"] = sha_files(repo_headers())
+    if src is None:
+        return _hash_cache["repo"]
+    if src not in _hash_cache:
+        _hash_cache[src] = sha_files(source_deps(src))
+    return _hash_cache["repo"] + _hash_cache[src]
 
 
 def target_cmds(name):
@@ -83,7 +107,7 @@ def target_cmds(name):
         vmain_o = os.path.join(BUILD, "vmain_%s.o" % kind)
         cmds.append([CXX] + flags + [src, vmain_o, "-o", out, "-lrapidcheck"] + libs)
         deps = [src, os.path.join(HERE, "harness/src/vmain.cpp")]
-    h = hashlib.sha256((env_hash() + sha_files(deps) + " ".join(sum(cmds, []))).encode()).hexdigest()
+    h = hashlib.sha256((env_hash(src) + sha_files(deps) + " ".join(sum(cmds, []))).encode()).hexdigest()
     return cmds, out, h
 
 
@@ -91,7 +115,7 @@ def build_vmain(kind):
     src = os.path.join(HERE, "harness/src/vmain.cpp")
     out = os.path.join(BUILD, "vmain_%s.o" % kind)
     cmd = [CXX] + BASE + SAN[kind] + ["-c", src, "-o", out]
-    h = hashlib.sha256((sha_files([src] + harness_headers()) + " ".join(cmd)).encode()).hexdigest()
+    h = hashlib.sha256((sha_files(source_deps(src)) + " ".join(cmd)).encode()).hexdigest()
     hp = out + ".hash"
     if os.path.exists(out) and os.path.exists(hp) and open(hp).read() == h:
         return True
